@@ -72,7 +72,7 @@ Proof. unfold wK. destruct (t_pc (c_thr st p)); [|lia]. destruct (_ && _); simpl
 
 Section ChanInv.
   Variables (n : nat) (cap Y : Z).
-  Hypothesis Hn : Z.of_nat n < W64.
+  Hypothesis Hn : Z.of_nat n + 1 < W64.       (* fewer than 2^64 - 1 participants: idler never wraps *)
 
   Definition sB st := sumn n (wi iB st).
   Definition sA st := sumn n (wi iA st).
@@ -96,6 +96,7 @@ Section ChanInv.
     ci_T : 0 <= c_qsem st;
     ci_idler : c_idler st = sB st + sA st + sD st + sN st;
     ci_pend : c_pending st = c_qsem st + sD st + sS st;
+    ci_pb : c_pending st <= Z.of_nat n;
     ci_tep : forall p, c_tep st p <= c_epoch st;
     ci_loc : forall p pc, t_pc (c_thr st p) = Some pc -> loc_ok st p pc;
     ci_G : c_q st <> [] ->
@@ -166,6 +167,7 @@ Section ChanInv.
     0 <= c_qsem st' ->
     c_idler st' = sB st' + sA st' + sD st' + sN st' ->
     c_pending st' = c_qsem st' + sD st' + sS st' ->
+    c_pending st' <= Z.of_nat n ->
     (c_q st' <> [] -> sB st' + sD st' <= sB st + sD st /\
                       sB st' - c_qsem st' - sS st' <= sB st - c_qsem st - sS st) ->
     (forall pc', t_pc th' = Some pc' -> loc_ok st' p0 pc') ->
@@ -173,7 +175,7 @@ Section ChanInv.
        Z.of_nat (length (c_q st')) <= c_qsem st' + sS st' + sA st' + sD st' + sK st' \/ sB st' <= c_qsem st' + sS st') ->
     CInv st'.
   Proof.
-    intros I Hp Epc Et Ep Ee Hq HT Hid Hpe Hmono Hloc HG.
+    intros I Hp Epc Et Ep Ee Hq HT Hid Hpe Hpb Hmono Hloc HG.
     constructor; try assumption.
     - intros p Hge. rewrite Et, upd_other by lia. apply (ci_out st I p Hge).
     - intros p. rewrite Ep, Ee. apply (ci_tep st I).
@@ -258,9 +260,10 @@ Section ChanInv.
       - rewrite WKp. unfold wK at 2. rewrite Epc, HK. simpl. lia.
       - intros q N. unfold wK. rewrite Et, Etp, Eep, Ee, !upd_other by exact N. reflexivity. }
     pose proof (sums_nonneg st) as (PB & PA & PD & PN & PS & PK).
-    destruct I as [Iout IT Iid Ipe Itep Iloc IG].
+    destruct I as [Iout IT Iid Ipe Ipb Itep Iloc IG].
     constructor.
     - intros q Hge. rewrite Et, upd_other by lia. apply Iout; exact Hge.
+    - lia.
     - lia.
     - lia.
     - lia.
@@ -294,7 +297,8 @@ Section ChanInv.
     pose proof (sums_nonneg st) as (PB & PA & PD & PN & PS & PK).
     pose proof (R_le_n st) as HR.
     pose proof (ci_T st I) as HT. pose proof (ci_idler st I) as Hid. pose proof (ci_pend st I) as Hpe.
-    pose proof (ci_loc st I p pc Epc) as Hl. pose proof (ci_G st I) as HG.
+    pose proof (ci_loc st I p pc Epc) as Hl. pose proof (ci_G st I) as HG. pose proof (ci_pb st I) as Hpb.
+    assert (Hbz : 0 <= b2z (c_tep st p =? c_epoch st) <= 1) by (destruct (c_tep st p =? c_epoch st); simpl; lia).
     destruct pc; cbn [loc_ok] in Hl.
     - (* CSPush1 *) destruct (cap <=? Z.of_nat (length (c_q st))).
       + plain st p I Hp Epc; fin HG.
@@ -315,21 +319,42 @@ Section ChanInv.
         specialize (Hin Hi). lia.
       + plain st p I Hp Epc; fin HG. repeat split; try lia. intros Hi.
         specialize (Hin Hi). lia.
-    - admit.
-    - admit.
-    - admit.
-    - admit.
-    - admit.
-    - admit.
-    - admit.
-    - admit.
-    - admit.
-    - admit.
-    - admit.
-    - admit.
-    - admit.
-    - admit.
-    - admit.
-    - admit.
-  Admitted.
+    - (* CSLdFresh *) destruct Hl as (Hc & Hpd & Hin). destruct (Z.leb_spec (c_idler st) cur).
+      + plain st p I Hp Epc; fin HG. intros Hne.
+        destruct (Z.eqb_spec (c_tep st p) (c_epoch st)) as [Ee|Ne]; simpl in EK.
+        * right. specialize (Hin (conj Ee Hne)). lia.
+        * specialize (HG Hne). lia.
+      + unfold send_loop. destruct (Z.leb_spec (c_idler st) pd).
+        * plain st p I Hp Epc; fin HG. repeat split; try lia. intros Hi. specialize (Hin Hi). lia.
+        * plain st p I Hp Epc; fin HG. repeat split; try lia.
+    - (* CSCasPend *) destruct Hl as (Hc & Hpd & Hin). destruct (Z.eqb_spec (c_pending st) pd) as [Eo|No].
+      + rewrite (wrap_small (pd + 1)) by lia. plain st p I Hp Epc; fin HG.
+      + unfold send_loop. destruct (Z.leb_spec cur (c_pending st)).
+        * plain st p I Hp Epc; fin HG. repeat split; try lia. intros Hi. specialize (Hin Hi). lia.
+        * plain st p I Hp Epc; fin HG. repeat split; try lia. intros Hi. specialize (Hin Hi). lia.
+    - (* CSSignal *) plain st p I Hp Epc; fin HG.
+    - (* CRPop1 *) destruct (c_q st) as [|x r] eqn:Eq.
+      + plain st p I Hp Epc; fin HG.
+      + plain st p I Hp Epc; fin HG; try (intros; discriminate).
+        intros Hne. assert (Hx : x :: r <> []) by discriminate. specialize (HG Hx). simpl length in HG. rewrite Nat2Z.inj_succ in HG. lia.
+    - (* CRYield0 *) plain st p I Hp Epc; fin HG.
+    - (* CRIdInc *) rewrite (wrap_small (c_idler st + 1)) by lia. plain st p I Hp Epc; fin HG.
+    - (* CRPop2 *) destruct (c_q st) as [|x r] eqn:Eq.
+      + destruct (0 <? yt); plain st p I Hp Epc; fin HG; try (intros Hne; contradiction).
+      + plain st p I Hp Epc; fin HG; try (intros; discriminate).
+        intros Hne. assert (Hx : x :: r <> []) by discriminate. specialize (HG Hx). simpl length in HG. rewrite Nat2Z.inj_succ in HG. lia.
+    - (* CRYield *) plain st p I Hp Epc; fin HG.
+    - (* CRSemWait *) destruct (Z.ltb_spec 0 (c_qsem st)); [|destruct (Nat.eqb f 1); [|exact I]]; plain st p I Hp Epc; fin HG.
+    - (* CRPdDec *)
+      assert (H1 : 1 <= sD st) by (unfold sD; replace 1 with (wi iD st p) by (unfold wi; rewrite Epc; reflexivity); apply sumn_ge_term; [exact Hp | intros q; apply ob_nonneg]).
+      rewrite (wrap_small (c_pending st - 1)) by lia. plain st p I Hp Epc; fin HG.
+    - (* CRIdDec *)
+      assert (H1 : 1 <= sN st) by (unfold sN; replace 1 with (wi iN st p) by (unfold wi; rewrite Epc; reflexivity); apply sumn_ge_term; [exact Hp | intros q; apply ob_nonneg]).
+      rewrite (wrap_small (c_idler st - 1)) by lia. plain st p I Hp Epc; fin HG.
+    - (* CNLdSw *) unfold recv_done. destruct (c_swait st =? 0); destruct dec; plain st p I Hp Epc; fin HG.
+    - (* CNLdSp *) unfold notify_loop. destruct (cw <=? c_spend st); destruct dec; plain st p I Hp Epc; fin HG.
+    - (* CNLdFresh *) unfold recv_done, notify_loop. destruct (c_swait st <=? cw); [|destruct (c_swait st <=? sp)]; destruct dec; plain st p I Hp Epc; fin HG.
+    - (* CNCasSp *) unfold notify_loop. destruct (c_spend st =? sp); [|destruct (cw <=? c_spend st)]; destruct dec; plain st p I Hp Epc; fin HG.
+    - (* CNSignal *) unfold recv_done. destruct dec; plain st p I Hp Epc; fin HG.
+  Qed.
 End ChanInv.
